@@ -51,7 +51,7 @@ def expected(v: Any) -> Any:
     if isinstance(v, int):
         return ("int", v)
     if isinstance(v, Real):
-        return ("real", repr(float(v.q)))
+        return ("real", repr(float(v.q) + 0.0))
     if isinstance(v, Name):
         try:
             return ("name", v.v.decode("utf-8"))
@@ -218,6 +218,8 @@ class Speller:
     def _int(self, v: int) -> bytes:
         if v >= 0:
             alts = [("canon", b"%d" % v), ("plus", b"+%d" % v), ("zeros", b"00%d" % v), ("plus-zero", b"+0%d" % v)]
+            if v == 0:
+                alts.append(("minus-zero", b"-0"))
         else:
             alts = [("canon", b"%d" % v), ("zeros", b"-00%d" % -v)]
         return self.pick("int", alts)
@@ -250,6 +252,11 @@ class Speller:
         if not fp:
             alts.append(("notrail", s + ips + b"."))
         alts.append(("trail00", s + ips + b"." + fp0 + b"00"))
+        if q >= 0 and not fp:
+            alts.append(("plus-notrail", b"+" + ips + b"."))
+        if q == 0:
+            # zero has no sign: -0.0, -.0 and -0. are spellings of the same number
+            alts += [("neg-zero", b"-0.0"), ("neg-zero-nolead", b"-.0"), ("neg-zero-notrail", b"-0.")]
         return self.pick("real", _dedup(alts))
 
     def _name(self, v: bytes) -> bytes:
@@ -289,7 +296,10 @@ class Speller:
             nxt = v[i + 1] if i + 1 < n else None
             short_ok = nxt is None or not (0x30 <= nxt <= 0x39)
             o3 = ("oct3", b"\\%03o" % c)
+            # fewer than three octal digits are allowed when the next character is not a digit (or the string ends)
             osh = [("octshort", b"\\%o" % c)] if short_ok else []
+            if short_ok and c < 0o100:
+                osh.append(("oct2", b"\\%02o" % c))
             if c == 0x0A:
                 alts = [("n", b"\\n"), ("raw-LF", b"\n"), ("raw-CR-eol", b"\r"), ("raw-CRLF-eol", b"\r\n"), o3] + osh
             elif c == 0x0D:
